@@ -97,9 +97,17 @@ def jit_vs_interpreter(chk, r, rep, n_points, n_runs, max_pto):
         name = f"{kind}_{r.choice(['total', 'light', 'charm'])}"
         runs.append(dict(theory=cards.theory(PTO=pto, FNS=scheme, NfFF=nfff, TMC=tmc), observables=cards.obs({name: [dict(x=float(r.choice([0.05, 0.3])), Q2=float(r.choice([10.0, 200.0])))]}, prDIS=process, ProjectileDIS="neutrino" if process == "CC" else "electron", interpolation_xgrid=cards.default_grid(8, 1e-2))))
     req = dict(kernels=reqs, runs=runs)
-    cache = str(common.VERIF / ".cache" / "numba")
-    a = worker({"NUMBA_DISABLE_JIT": "1", "NUMBA_CACHE_DIR": cache}, req)
-    b = worker({"NUMBA_DISABLE_JIT": "0", "NUMBA_CACHE_DIR": cache}, req)
+    # a *fresh* cache directory: numba does not invalidate the cached machine code of a caller when
+    # only a callee's source changes, so a persistent cache could hide a changed kernel
+    import shutil
+    import tempfile
+
+    cache = tempfile.mkdtemp(prefix="verif_numba_")
+    try:
+        a = worker({"NUMBA_DISABLE_JIT": "1", "NUMBA_CACHE_DIR": cache}, req)
+        b = worker({"NUMBA_DISABLE_JIT": "0", "NUMBA_CACHE_DIR": cache}, req)
+    finally:
+        shutil.rmtree(cache, ignore_errors=True)
     for rq, ra, rb in zip(reqs, a["kernels"], b["kernels"]):
         if "error" in ra or "error" in rb:
             ok = ("error" in ra) == ("error" in rb)
